@@ -190,8 +190,12 @@ func (in *interp) builtinSlice(fr *frame, e *a.Expr) value {
 		}
 		return value{k: vkSlice, sl: s}
 	case "prefix":
-		// internal/cgen has no case for prefix: wuffs-c cannot generate it.
-		unsupp("slice.prefix (not implemented by the C generator)")
+		// (internal/cgen has no case for prefix: see Program.CGenIssues.)
+		up := in.argNum(fr, e, 0)
+		if up.isU64() && uint64(s.n) > up.u {
+			s.n = int(up.u)
+		}
+		return value{k: vkSlice, sl: s}
 	}
 	if strings.HasPrefix(name, "peek_u") {
 		nb, le, ok := endianOf(name)
@@ -428,11 +432,6 @@ func (in *interp) builtinWriter(fr *frame, e *a.Expr, vr *variable, io *ioState,
 	case "limited_copy_u32_from_reader":
 		up := in.argNum(fr, e, 0)
 		re := e.Args()[1].AsArg().Value()
-		if id := re.IsArgsDotFoo(); id != 0 && !fr.fn.derivedArgs[id] {
-			// internal/cgen/var.go needDerivedVar only looks at method calls on
-			// the argument itself: the C refers to an undeclared iop_a_xxx.
-			unsupp("I/O argument only used as an argument of a built-in: wuffs-c emits invalid C")
-		}
 		rv := in.ioVar(fr, re)
 		r := rv.v.io
 		n := avail
